@@ -41,6 +41,7 @@ impl Drop for MountFd {
         // still an `Arc<MountFd>` alive.  In this case, we don't need to remove it from the map,
         // because the map doesn't exist anymore.
         if let Some(map) = self.map.upgrade() {
+            verif_yield!("MD_wlock");
             let mut map = map.write().unwrap();
             // After the refcount reaches zero and before we lock the map, there's a window where
             // the value can be concurrently replaced by a `Weak` pointer to a new `MountFd`.
@@ -95,6 +96,7 @@ impl MountFds {
     where
         F: FnOnce(RawFd, libc::c_int, u32) -> io::Result<File>,
     {
+        verif_yield!("MF_probe");
         let existing_mount_fd = self
             .map
             // The `else` branch below (where `existing_mount_fd` matches `None`) takes a write lock
@@ -127,6 +129,7 @@ impl MountFds {
                     .prefix(format!("Failed to convert \"{mount_point}\" to a CString"))
             })?;
 
+            verif_yield!("MF_open");
             let mount_point_fd = unsafe { libc::open(c_mount_point.as_ptr(), libc::O_PATH) };
             if mount_point_fd < 0 {
                 return Err(self
@@ -152,6 +155,7 @@ impl MountFds {
             }
 
             // Now that we know that this is a regular file or directory, really open it
+            verif_yield!("MF_reopen");
             let file = reopen_fd(
                 mount_point_fd.as_raw_fd(),
                 libc::O_RDONLY | libc::O_NOFOLLOW | libc::O_CLOEXEC,
@@ -163,6 +167,7 @@ impl MountFds {
                 ))
             })?;
 
+            verif_yield!("MF_wlock");
             let mut mount_fds_locked = self.map.write().unwrap();
 
             // As above: by calling `and_then(Weak::upgrade)`, we treat a failed upgrade just like a
@@ -190,6 +195,16 @@ impl MountFds {
         };
 
         Ok(mount_fd)
+    }
+
+    /// Verification hook: (entries in the map, entries whose `MountFd` is still referenced).
+    #[cfg(fuse_backend_rs_verif)]
+    pub fn verif_len(&self) -> (usize, usize) {
+        let map = self.map.read().unwrap();
+        (
+            map.len(),
+            map.values().filter(|w| w.strong_count() > 0).count(),
+        )
     }
 
     // Ensure that `mount_point_path` refers to an inode with the mount ID we need
